@@ -107,11 +107,16 @@ func init() {
 		Run: func(r *eng.Run) {
 			cfgs := rvx.AllCfgs()
 			for ci, cfg := range cfgs {
-				ps := rvx.Parser(cfg)
+				pset0 := getParsers()
+				ps := pset0[cfg]
+				_ = ps
 				cfg := cfg
 				full := cfg.M && cfg.A
 				if r.Quick() {
 					r.Par(4096, func(hi int) {
+						pset := getParsers()
+						defer putParsers(pset)
+						ps := pset[cfg]
 						for f3 := uint32(0); f3 < 8; f3++ {
 							for op := uint32(0); op < 128; op++ {
 								base := uint32(hi)<<20 | f3<<12 | op
@@ -145,6 +150,9 @@ func init() {
 					})
 				} else {
 					r.Par(1<<16, func(hi int) {
+						pset := getParsers()
+						defer putParsers(pset)
+						ps := pset[cfg]
 						var acc, n int
 						for lo := uint32(0); lo < 1<<16; lo++ {
 							w := uint32(hi)<<16 | lo
@@ -172,6 +180,7 @@ func init() {
 						r.Report(f)
 					}
 				}
+				putParsers(pset0)
 				r.Note("configuration %s done", cfg)
 				if ci == 0 {
 					r.Sample(c02Case{Cfg: cfg, Word: 0x00c58533, Hex: "00c58533"})
